@@ -16,60 +16,86 @@
 (* D (DRIFT only): the List observation; agreement of each Read with what the model of the code    *)
 (* (MpqHashTable implementation machine, run by Gen_MpqHashTable) predicted.                       *)
 (***************************************************************************************************)
-EXTENDS MpqMap, Sequences, Json, IOUtils, TLC, TLCExt
+EXTENDS MpqMapSpecials, Json, IOUtils, TLC, TLCExt
 
 Rec == ndJsonDeserialize(IOEnv.TRACE)
 VARIABLES tl,
           vreset,     \* index of the Reset event of the current trace (its `preds` = predictions of the code model)
           voptok,     \* model token key ("i:<name>", "o<k>") -> content token actually used by the driver
           vskip,      \* the current trace has been rejected: consume its remaining events
-          vhaslf      \* the archive carries a (listfile) (starting archive, or produced by compact())
-tvars == <<tl, vdisk, vsess, vopen, vdirty, vcap, vextra, vreset, voptok, vskip, vhaslf>>
-Keep == UNCHANGED <<vreset, voptok, vskip, vhaslf>>
+          vhaslf,     \* the archive carries a (listfile) (starting archive, or produced by compact())
+          vdig,       \* content token -> <<CRC32, MD5>> of that content (hex, as logged with the Reset / Add events)
+          vopts       \* name -> options of the add_file_data call that stored the file's current bytes ([by |-> "other"]: stored by
+                      \* the builder - starting archive or compact())
+tvars == <<tl, vdisk, vsess, vopen, vdirty, vcap, vextra, vreset, voptok, vskip, vhaslf, vdig, vopts, qvars>>
+Keep2 == UNCHANGED <<vreset, voptok, vskip, vhaslf, vdig>>
+Keep == Keep2 /\ UNCHANGED vopts
+ByOther == [by |-> "other", comp |-> "", enc |-> "", len |-> 0]
+KeepQ == UNCHANGED qvars
 
 Ev == Rec[tl]
 Is(k) == Ev.ev = k
+
+\* observations of the special files (LfRaw / Attrs events, lf0 / at0 of Reset) as values of the sub-machine
+ObsLines(l) == [i \in 1..Len(l.lines) |-> Line(l.lines[i][1], l.lines[i][2])]
+LfOf(l)     == [has |-> l.has, lines |-> ObsLines(l), crlf |-> TRUE]       \* starting archives come from the builder
+ObsFlags(a) == {a.flags[i] : i \in 1..Len(a.flags)}
+ObsRows(a)  == [i \in 1..Len(a.rows) |-> Row(a.rows[i][1], a.rows[i][2], a.rows[i][3])]
+AtOf(a)     == IF a.has /\ a.loaded THEN [has |-> TRUE, flags |-> ObsFlags(a), rows |-> ObsRows(a)] ELSE NoAttrs
 
 T_Reset == /\ Is("Reset")
            /\ vdisk' = Ev.initial /\ vsess' = Ev.initial /\ vopen' = FALSE /\ vdirty' = FALSE
            /\ vcap' = Ev.hsize /\ vextra' = Ev.nspecial
            /\ vreset' = tl /\ voptok' = Ev.toks /\ vskip' = FALSE /\ vhaslf' = Ev.lf
+           /\ vdig' = Ev.dig /\ vopts' = [x \in DOMAIN Ev.initial |-> ByOther]
+           \* the special files of the starting archive as observed: initial state of the sub-machine
+           /\ qlf' = LfOf(Ev.lf0) /\ qat' = AtOf(Ev.at0) /\ qblk' = Ev.at0.blk /\ qnblk' = Ev.at0.nblk
+           /\ qmod' = Blank(Ev.at0.nblk) /\ qvnblk' = Ev.at0.nblk /\ qadirty' = FALSE
+           /\ qdsk' = Image(LfOf(Ev.lf0), AtOf(Ev.at0), Ev.at0.blk, Ev.at0.nblk) /\ qlfview' = ObsLines(Ev.lf0)
 
 \* no action of MpqMap explains the event: report it, give up on this trace
 Reject(why) == /\ PrintT(<<"BAD", tl, why>>)
-               /\ vskip' = TRUE /\ UNCHANGED <<mvars, vreset, voptok, vhaslf>>
+               /\ vskip' = TRUE /\ UNCHANGED <<mvars, vreset, voptok, vhaslf, vdig, vopts, qvars>>
 
 T_Open  == /\ Is("Open")
-           /\ IF Ev.res = "ok" /\ CanOpen THEN Open /\ Keep ELSE Reject("open")
+           /\ IF Ev.res = "ok" /\ CanOpen THEN Open /\ QOpen /\ Keep ELSE Reject("open")
 
 NoteTok == voptok' = [x \in DOMAIN voptok \cup {Ev.okey} |-> IF x = Ev.okey THEN Ev.tok ELSE voptok[x]]
 Refusal(r) == r \notin {"ok", "exists", "hang", "panic", "notfound"}        \* err:<Variant>
 T_Add   == /\ Is("Add")
-           /\ IF Ev.res = "ok" /\ CanAdd(Ev.n, Ev.rep) THEN Add(Ev.n, Ev.tok, Ev.rep) /\ NoteTok /\ UNCHANGED <<vreset, vskip, vhaslf>>
-              ELSE IF Ev.res = "exists" /\ CanAddFailExists(Ev.n, Ev.rep) THEN AddFailExists(Ev.n, Ev.rep) /\ Keep
-              ELSE IF Refusal(Ev.res) /\ CanAddFailFull(Ev.n) THEN AddFailFull(Ev.n) /\ Keep
+           /\ IF Ev.res = "ok" /\ CanAdd(Ev.n, Ev.rep)
+              THEN /\ Add(Ev.n, Ev.tok, Ev.rep) /\ NoteTok /\ UNCHANGED <<vreset, vskip, vhaslf>>
+                   /\ vdig' = [x \in DOMAIN vdig \cup {Ev.tok} |-> IF x = Ev.tok THEN <<Ev.crc, Ev.md5>> ELSE vdig[x]]
+                   /\ QAdd(Ev.n, Ev.sp, Dg(Ev.crc, Ev.md5))
+                   /\ vopts' = [vopts EXCEPT ![Ev.n] = [by |-> "add", comp |-> Ev.comp, enc |-> Ev.enc, len |-> Ev.len]]
+              ELSE IF Ev.res = "exists" /\ CanAddFailExists(Ev.n, Ev.rep) THEN AddFailExists(Ev.n, Ev.rep) /\ Keep /\ KeepQ
+              ELSE IF Refusal(Ev.res) /\ CanAddFailFull(Ev.n) THEN AddFailFull(Ev.n) /\ Keep /\ KeepQ
               ELSE Reject("add")
 
 T_Remove == /\ Is("Remove")
-            /\ IF Ev.res = "ok" /\ CanRemove(Ev.n) THEN Remove(Ev.n) /\ Keep
-               ELSE IF Ev.res = "notfound" /\ CanRemoveFail(Ev.n) THEN RemoveFail(Ev.n) /\ Keep
+            /\ IF Ev.res = "ok" /\ CanRemove(Ev.n) THEN Remove(Ev.n) /\ QRemove(Ev.n, Ev.sp) /\ Keep2 /\ vopts' = [vopts EXCEPT ![Ev.n] = ByOther]
+               ELSE IF Ev.res = "notfound" /\ CanRemoveFail(Ev.n) THEN RemoveFail(Ev.n) /\ Keep /\ KeepQ
                ELSE Reject("remove")
 
 T_Rename == /\ Is("Rename")
-            /\ IF Ev.res = "ok" /\ CanRename(Ev.n, Ev.m) THEN Rename(Ev.n, Ev.m) /\ Keep
-               ELSE IF Ev.res \in {"notfound", "exists"} /\ CanRenameFail(Ev.n, Ev.m) THEN RenameFail(Ev.n, Ev.m) /\ Keep
+            /\ IF Ev.res = "ok" /\ CanRename(Ev.n, Ev.m) THEN Rename(Ev.n, Ev.m) /\ QRename(Ev.n, Ev.sp, Ev.m, Ev.spm) /\ Keep2
+                                                             /\ vopts' = [vopts EXCEPT ![Ev.m] = vopts[Ev.n], ![Ev.n] = ByOther]
+               ELSE IF Ev.res \in {"notfound", "exists"} /\ CanRenameFail(Ev.n, Ev.m) THEN RenameFail(Ev.n, Ev.m) /\ Keep /\ KeepQ
                ELSE Reject("rename")
 
-T_Flush   == Is("Flush")   /\ IF Ev.res = "ok" /\ vopen THEN Flush /\ Keep ELSE Reject("flush")
+T_Flush   == Is("Flush")   /\ IF Ev.res = "ok" /\ vopen THEN Flush /\ QFlush(vdirty) /\ Keep ELSE Reject("flush")
 \* the compacted file is produced by the builder, which generates a (listfile)
 T_Compact == Is("Compact") /\ IF Ev.res = "ok" /\ vopen
-                              THEN Compact(Ev.hsize, Ev.nspecial) /\ vhaslf' = TRUE /\ UNCHANGED <<vreset, voptok, vskip>>
-                              \* a refusal is legitimate only where the names are not all known
-                              ELSE IF Ev.res \notin {"ok", "hang", "panic"} /\ vopen /\ ~vhaslf THEN CompactFail /\ Keep
+                              THEN Compact(Ev.hsize, Ev.nspecial) /\ QCompact /\ vhaslf' = TRUE /\ UNCHANGED <<vreset, voptok, vskip, vdig>>
+                                   /\ vopts' = [x \in DOMAIN vopts |-> ByOther]          \* re-stored by the builder
+                              \* a refusal is legitimate only where the names are not all known; the session's map is
+                              \* unchanged (the flush compact() starts with has happened: durability only)
+                              ELSE IF Ev.res \notin {"ok", "hang", "panic"} /\ vopen /\ ~vhaslf
+                              THEN (IF vdirty THEN Flush ELSE CompactFail) /\ QCompactRefused(vdirty) /\ Keep
                               ELSE Reject("compact")
-T_Close   == Is("Close")   /\ IF Ev.res = "ok" /\ vopen THEN Close /\ Keep ELSE Reject("close")
+T_Close   == Is("Close")   /\ IF Ev.res = "ok" /\ vopen THEN Close /\ QFlush(vdirty) /\ Keep ELSE Reject("close")
 \* a fresh Archive::open of the file after the session was closed must succeed
-T_Check   == Is("Check")   /\ IF Ev.res = "ok" /\ ~vopen THEN UNCHANGED mvars /\ Keep ELSE Reject("check")
+T_Check   == Is("Check")   /\ IF Ev.res = "ok" /\ ~vopen THEN UNCHANGED mvars /\ Keep /\ KeepQ ELSE Reject("check")
 
 ReadWhy(e) == IF vdisk[e.n] = None THEN "ghost"                    \* absent name is readable
               ELSE IF e.res = "notfound" THEN "lost"                \* present name not found
@@ -92,10 +118,21 @@ ModelSays(e) == LET p == PredFor(e) IN
 \* marker for "present, but reading it failed" after a reported Read (the same failure at the next
 \* checkpoint is the same observation, not a new one)
 Unread == "?unreadable"
-T_Read == /\ Is("Read") /\ Keep
+\* D (growth round 4): the options of add_file_data as a dimension of the abstract op - the stored form of a file that
+\* add_file_data(options) wrote, as the block table of the reopened archive shows it, has the facts the reader relies on:
+\* file_size = length of the data; ENCRYPTED iff encryption was asked for, FIX_KEY iff fix_key; always SINGLE_UNIT;
+\* COMPRESS only if a method was asked for AND the stored form is shorter (otherwise stored raw: compressed_size = file_size)
+StoredOK(e) == LET o == vopts[e.n] IN
+    (e.res = "ok" /\ o.by = "add") =>
+        /\ e.fsz = o.len
+        /\ e.fl.e = (o.enc # "none") /\ e.fl.k = (o.enc = "fix") /\ e.fl.s
+        /\ (e.fl.c => (o.comp # "none" /\ e.csz < e.fsz))
+        /\ ((~e.fl.c) => e.csz = e.fsz)
+T_Read == /\ Is("Read") /\ Keep /\ KeepQ
           /\ IF ReadIs(Ev.n, Ev.res, Ev.tok) \/ (~vopen /\ vdisk[Ev.n] = Unread /\ Ev.res \notin {"ok", "notfound"})
              THEN /\ UNCHANGED mvars
                   /\ IF ModelSays(Ev) = "notmodel" THEN PrintT(<<"DRIFT", tl, "pred">>) ELSE TRUE
+                  /\ IF StoredOK(Ev) THEN TRUE ELSE PrintT(<<"DRIFT", tl, "stored">>)
              ELSE /\ PrintT(<<"BAD", tl, ReadWhy(Ev), ModelSays(Ev), PredCause(Ev)>>)
                   /\ vdisk' = [vdisk EXCEPT ![Ev.n] = IF Ev.res = "ok" THEN Ev.tok ELSE IF Ev.res = "notfound" THEN None ELSE Unread]
                   /\ vsess' = vdisk'
@@ -108,7 +145,7 @@ T_Read == /\ Is("Read") /\ Keep
 Listed(e) == {x \in {e.names[j] : j \in 1..Len(e.names)} : x \in DOMAIN vdisk}
 ListModel(e) == LET p == PredFor(e) IN
                 IF p.kind # "map" THEN "nopred" ELSE IF Listed(e) = {p.list[j] : j \in 1..Len(p.list)} THEN "asmodel" ELSE "notmodel"
-T_List == /\ Is("List") /\ UNCHANGED mvars /\ Keep
+T_List == /\ Is("List") /\ UNCHANGED mvars /\ Keep /\ KeepQ
           /\ IF Ev.res = "ok" /\ Present(vdisk) = Listed(Ev) THEN TRUE
              ELSE IF vhaslf THEN PrintT(<<"BAD", tl, "list", ListModel(Ev), "">>)
              ELSE PrintT(<<"DRIFT", tl, "list">>)
@@ -133,21 +170,60 @@ SessionModel(e) == LET ps == Rec[vreset].psr IN
 \* agrees; nothing in the verdict depends on it - Close makes the session durable anyway)
 T_SRead == /\ Is("SRead") /\ Keep
            /\ IF vopen /\ vdirty THEN Flush ELSE UNCHANGED mvars
+           /\ QSessionRead(vopen /\ vdirty)
            /\ IF vopen /\ ((vsess[Ev.n] = None /\ Ev.res = "notfound") \/ (vsess[Ev.n] # None /\ Ev.res = "ok" /\ Ev.tok = vsess[Ev.n]))
               THEN TRUE
               ELSE PrintT(<<"BAD", tl, "sessionread:" \o SessionWhy(Ev), SessionModel(Ev), "">>)
-\* D: the (attributes) file, where present, records the CRC32 of every readable file (attributes maintenance is
-\* integrity metadata - C10's subject - and not part of the map the property speaks about)
-T_Attrs == /\ Is("Attrs") /\ UNCHANGED mvars /\ Keep
-           /\ IF Ev.loaded /\ Ev.bad = <<>> THEN TRUE ELSE PrintT(<<"DRIFT", tl, "attrs">>)
-T_Skip == ~Is("Reset") /\ UNCHANGED <<mvars, vreset, voptok, vskip, vhaslf>>
+(* ---- the special files after a close: raw (listfile) lines and parsed (attributes) rows (growth round 4) ---- *)
+\* P (archives that carry a listfile): the listfile a fresh open reads has one line for every file of the map, no line
+\* for a file that is not there (stale) and no file twice.  D: it is the line multiset the as-coded sub-machine predicts.
+LfNames(e)  == [i \in 1..Len(e.lines) |-> e.lines[i][1]]
+LfDup(e)    == \E i, j \in 1..Len(e.lines) : i # j /\ e.lines[i][1] = e.lines[j][1]
+LfStale(e)  == \E i \in 1..Len(e.lines) : LET x == e.lines[i][1] IN
+                   IF x \in DOMAIN vdisk THEN vdisk[x] = None ELSE x \notin {LFN, ATN}
+LfMissing(e) == \E n \in Present(vdisk) : \A i \in 1..Len(e.lines) : e.lines[i][1] # n
+LfWhy(e) == IF ~e.has THEN "nolistfile" ELSE IF e.res # "ok" THEN "unreadable" ELSE IF LfDup(e) THEN "dup"
+            ELSE IF LfStale(e) THEN "stale" ELSE IF LfMissing(e) THEN "incomplete" ELSE ""
+AsBag(lines) == [x \in {lines[i] : i \in 1..Len(lines)} |-> Cardinality({i \in 1..Len(lines) : lines[i] = x})]
+LfModel(e) == IF e.has = qdsk.lf.has /\ AsBag(ObsLines(e)) = AsBag(qdsk.lf.lines) THEN "asmodel" ELSE "notmodel"
+T_LfRaw == /\ Is("LfRaw") /\ UNCHANGED mvars /\ Keep /\ KeepQ
+           /\ IF vhaslf /\ LfWhy(Ev) # "" THEN PrintT(<<"BAD", tl, "lfraw:" \o LfWhy(Ev), LfModel(Ev), "">>)
+              ELSE IF LfModel(Ev) = "notmodel" THEN PrintT(<<"DRIFT", tl, "lfmodel">>) ELSE TRUE
 
-TInit == tl = 1 /\ MapInit(<<>>, 0, 0) /\ vreset = 0 /\ voptok = <<>> /\ vskip = FALSE /\ vhaslf = FALSE
+\* P: where a fresh open finds an (attributes) file it loads, has one row per block (the builder writes none for the
+\* (attributes) block itself), and the row of the block of every file of the map records the CRC32 / MD5 of that file's
+\* CURRENT content where the flags say so - for files the history never touched these are the rows they started with.
+\* An (attributes) file must not vanish by flush (compact() rebuilds the archive without one: as coded, see notes).
+\* D: flags, row count and every flagged column of every row equal the prediction of the as-coded sub-machine.
+HasFlag(e, f) == \E i \in 1..Len(e.flags) : e.flags[i] = f
+AtBadCol(e, col, f) == HasFlag(e, f) /\ \E n \in Present(vdisk) :
+                           /\ vdisk[n] \in DOMAIN vdig /\ e.blk[n] >= 1 /\ e.blk[n] <= e.nrows
+                           /\ e.rows[e.blk[n]][col] # vdig[vdisk[n]][col]
+AtWhy(e) == IF ~e.has THEN (IF qdsk.at.has THEN "missing" ELSE "")
+            ELSE IF ~e.loaded THEN "unloadable"
+            ELSE IF e.nrows \notin {e.nblk, e.nblk - 1} THEN "rowcount"
+            ELSE IF AtBadCol(e, 1, "crc") THEN "crc" ELSE IF AtBadCol(e, 2, "md5") THEN "md5" ELSE ""
+Agree(mv, ov) == mv \in {"lf", "junk"} \/ mv = ov
+AtModel(e) == IF e.has # qdsk.at.has THEN "notmodel"
+              ELSE IF ~e.has THEN "asmodel"
+              ELSE IF ~e.loaded \/ ObsFlags(e) # qdsk.at.flags \/ e.nrows # Len(qdsk.at.rows) THEN "notmodel"
+              ELSE IF \A i \in 1..e.nrows : LET r == qdsk.at.rows[i] IN
+                          /\ ("crc" \in qdsk.at.flags => Agree(r.crc, e.rows[i][1]))
+                          /\ ("md5" \in qdsk.at.flags => Agree(r.md5, e.rows[i][2]))
+                          /\ ("ft"  \in qdsk.at.flags => Agree(r.ft, e.rows[i][3]))
+                   THEN "asmodel" ELSE "notmodel"
+T_Attrs == /\ Is("Attrs") /\ UNCHANGED mvars /\ Keep /\ KeepQ
+           /\ IF AtWhy(Ev) # "" THEN PrintT(<<"BAD", tl, "attrs:" \o AtWhy(Ev), AtModel(Ev), "">>)
+              ELSE IF AtModel(Ev) = "notmodel" THEN PrintT(<<"DRIFT", tl, "atmodel">>) ELSE TRUE
+T_Skip == ~Is("Reset") /\ UNCHANGED <<mvars, vreset, voptok, vskip, vhaslf, vdig, vopts, qvars>>
+
+TInit == /\ tl = 1 /\ MapInit(<<>>, 0, 0) /\ vreset = 0 /\ voptok = <<>> /\ vskip = FALSE /\ vhaslf = FALSE /\ vdig = <<>> /\ vopts = <<>>
+         /\ QInit([has |-> FALSE, lines |-> <<>>, crlf |-> FALSE], NoAttrs, <<>>, 0)
 TNext == /\ tl <= Len(Rec)
          /\ tl' = tl + 1
          /\ IF vskip /\ ~Is("Reset") THEN T_Skip
             ELSE \/ T_Reset \/ T_Open \/ T_Add \/ T_Remove \/ T_Rename \/ T_Flush \/ T_Compact \/ T_Close
-                 \/ T_Check \/ T_Read \/ T_List \/ T_SRead \/ T_Attrs
+                 \/ T_Check \/ T_Read \/ T_List \/ T_SRead \/ T_Attrs \/ T_LfRaw
          /\ StDrift
 
 Accepted == LET d == TLCGet("stats").diameter IN
